@@ -57,3 +57,26 @@ def depthWith (k : Nat) (doc : Doc) (vars : Vars) (op : Op) : Nat :=
 def depth (doc : Doc) (vars : Vars) (op : Op) : Nat := depthWith doc.fuel doc vars op
 
 end PyGql.DepthSpec
+
+/-! ### specification of `selected_fields`: the set of selected field paths -/
+
+namespace PyGql.DepthSpec
+open PyGql.Depth
+
+/-- the field `f` is selected by the selection `s`: `s` is that field, or an inline fragment / a spread of a
+    defined fragment that (transitively) contains it; nothing on the way is switched off -/
+inductive ReachS (frags : List Frag) (vars : Vars) : Sel → Fld → Prop
+  | field (a n d sub) : skipped vars d = false → ReachS frags vars (.field a n d sub) ⟨a, n, sub⟩
+  | inline (d ss s f) : skipped vars d = false → s ∈ ss → ReachS frags vars s f → ReachS frags vars (.inline d ss) f
+  | spread (n d fr s f) : skipped vars d = false → lookupFrag frags n = some fr → s ∈ fr.sels →
+      ReachS frags vars s f → ReachS frags vars (.spread n d) f
+
+def Reach (frags : List Frag) (vars : Vars) (sels : List Sel) (f : Fld) : Prop :=
+  ∃ s ∈ sels, ReachS frags vars s f
+
+/-- `p` (a non-empty list of field NAMES) is a selected field path of the selection set -/
+inductive IsPath (frags : List Frag) (vars : Vars) : List Sel → List String → Prop
+  | leaf {sels f} : Reach frags vars sels f → IsPath frags vars sels [f.name]
+  | step {sels f p} : Reach frags vars sels f → IsPath frags vars f.sub p → IsPath frags vars sels (f.name :: p)
+
+end PyGql.DepthSpec
